@@ -71,7 +71,7 @@ def verify_function(program, lib, qual, timeout_ms=10000, only=None, shard=None,
             ident_k = ident if k == 0 else "%s#%d" % (ident, k)
             index += 1
             out["generated"] += 1
-            if only and only not in ident_k:
+            if only and not any(pat in ident_k for pat in only.split("|")):
                 continue
             if shard and index % shard[1] != shard[0]:
                 continue
